@@ -19,8 +19,9 @@ open CamVerif CamVerif.StreamLoop
 
 /-! ## Concrete instance used by the non-vacuity examples -/
 
-/-- leader 4 bytes, trailer 4 bytes, one payload transfer of 2 bytes + final1 of 1 byte, cap 1. -/
-def exP : Params := ⟨4, 4, 2, 1, 1, 0, 1, 5⟩
+/-- leader 4 bytes, trailer 4 bytes, one payload transfer of 2 bytes + final1 of 1 byte, cap 1,
+cancellations reported at most one poll late. -/
+def exP : Params := ⟨4, 4, 2, 1, 1, 0, 1, 5, 1⟩
 def exA : Assembler := fun _ _ _ read => .built ⟨read, 7⟩
 def exScript : List Item :=
   [.data [1, 2, 3, 4], .data [10, 11], .data [12], .data [5, 6, 7, 8],
@@ -425,8 +426,9 @@ private theorem run_phi {P : Params} {A : Assembler} {script : List Item} :
 
 /-- **stop_bounded**: take any reachable state in which the controller is parked in the rendezvous
 `send` of `stop_streaming_loop` (`ctl = stopping`) and any continuation schedule `as`.  Then
-* the loop performs at most `stopBound P = 3·T + 6` steps of its own in `as` (`T` = transfers per
-  frame; the bound is the variant `phi`, which every loop step decreases), and since by
+* the loop performs at most `stopBound P = (maxLate+3)·T + maxLate + 6` steps of its own in `as`
+  (`T` = transfers per frame, `maxLate` = how many polls late the USB stack may report the completion
+  of a cancelled transfer; `3·T + 6` for `maxLate = 0`; the bound is the variant `phi`, which every loop step decreases), and since by
   `loop_never_blocks` it always has an enabled step while it is alive, it is gone after at most
   that many of its own steps;
 * the running flag stays cleared (`ctl ≠ running`);
@@ -466,9 +468,9 @@ example : ∃ s, Reach exP exA exScript s ∧ (s.ctl, s.pc, s.pending.length) = 
 
 example : (run exP exA exScript (init exP)
     [.checkCancel, .obtainAlloc, .submitOk, .submitOk, .submitOk, .submitOk, .pollOk, .stopCall, .stopBlock,
-     .pollPending, .trySend, .cancelNext, .cancelNext, .cancelNext, .reapOne, .reapOne, .reapOne, .iterEnd,
-     .checkCancel, .exit]).map (fun s => (s.ctl, s.pc, s.pending.length, stopBound exP)) =
-    some (.stopOk, .exited, 0, 18) := by decide
+     .pollPending, .trySend, .cancelNext, .cancelNext, .cancelNext, .reapLate, .reapOne, .reapOne, .reapLate,
+     .reapOne, .iterEnd, .checkCancel, .exit]).map (fun s => (s.ctl, s.pc, s.pending.length, stopBound exP)) =
+    some (.stopOk, .exited, 0, 23) := by decide
 
 /-! ## The loop terminates only on a stop request -/
 
@@ -554,13 +556,18 @@ example : (∀ lb tb buf r, exA lb tb buf r ≠ .panic) ∧
   refine ⟨?_, ex_reach (steps := exToParse) (f := fun s => (s.ctl, s.pc)) (by decide)⟩
   intro _ _ _ _ h; cases h
 
-/-- `B(params)` is linear in the number of transfers per frame. -/
+/-- `B(params)` is linear in the number of transfers per frame (for a fixed cancellation latency
+`maxLate` of the USB stack; `3·T + 6` when cancellations are reported at once). -/
 theorem stopBound_linear (P : Params) :
-    stopBound P = 3 * (P.payloadSlots.length + 2) + 6 ∧
+    stopBound P = (P.maxLate + 3) * (P.payloadSlots.length + 2) + P.maxLate + 6 ∧
     P.payloadSlots.length ≤ P.payloadCount + 2 := by
-  refine ⟨by simp [stopBound, T_eq], ?_⟩
-  unfold Params.payloadSlots
-  simp only [List.length_append, List.length_map, List.length_range]
-  split <;> split <;> simp
+  refine ⟨?_, ?_⟩
+  · simp only [stopBound, T_eq]
+    rw [Nat.add_mul (P.maxLate) 3, Nat.mul_add (P.payloadSlots.length + 2) P.maxLate 2]
+    rw [Nat.mul_comm (P.payloadSlots.length + 2) P.maxLate]
+    omega
+  · unfold Params.payloadSlots
+    simp only [List.length_append, List.length_map, List.length_range]
+    split <;> split <;> simp
 
 end CamVerif.C12
